@@ -1,5 +1,5 @@
 (* Props/C10.v — the single sequencer's batch queue is a durable FIFO with exactly-once delivery.
-   Statements only; every proof is [exact <lemma of Proofs/QueueProofs.v, QueueKeysProofs.v, QueueBudgetProofs.v>].
+   Statements only; every proof is [exact <lemma of Proofs/QueueProofs.v, QueueKeysProofs.v, QueueBudgetProofs.v, QueueStartsProofs.v>].
    The model is the code AFTER the repair of the key scheme (fix recorded in findings/C10.entries.json).
 
    Histories (first part: one bound for the whole history; second part: a bound per process start): lists over  UOp (USubmit chain_id_ok batch) | UOp (UNext chain_id_ok) | URestart |
@@ -9,6 +9,7 @@
 From Coq Require Import NArith List Bool.
 From Verif Require Import Model.Queue Proofs.QueueProofs.
 From Verif Require Import Model.QueueKeys Proofs.QueueKeysProofs Model.QueueBudget Proofs.QueueBudgetProofs.
+From Verif Require Import Model.QueueStarts Proofs.QueueStartsProofs.
 From Verif Require Proofs.GoLiteQueueRefine.
 Import ListNotations.
 Open Scope N_scope.
@@ -342,4 +343,32 @@ Example ex_budget :
             BOp (BNext true 1)] in
   b_outputs 0 h = [Some ROk; Some ROk; Some (RBatch 7); None; Some (RBatch 8); Some REmpty] /\
   b_wlog 0 h = [WPut 0 7; WPut 1 8; WDel 0; WDel 1].
+Proof. vm_compute. split; reflexivity. Qed.
+
+(* ==== WHAT EVERY STARTING PROCESS FINDS (Model/QueueStarts.v) ===============================================================
+   "Batches accepted but not yet handed out survive a restart", said of the records themselves: for ALL histories (budgets,
+   bounds, crashes inside operations at every write boundary) the records under the queue's prefix at EVERY process start
+   of the history hold, in key order, exactly the contents of the batches pending at that moment in acceptance order (the
+   plain FIFO's queue: each record still holds the batch it was written for, whatever was accepted, encoded or handed out
+   after it), and the queue the new process starts with is exactly those records. *)
+Theorem C10_records_at_every_process_start_are_the_pending_batches_full : forall max0 h,
+  map (map snd) (b_start_images max0 h) = sv_start_queues max0 [] (map b_vitem h) /\
+  b_start_queues max0 h = b_start_images max0 h.
+Proof. exact b_starts_full. Qed.
+Print Assumptions C10_records_at_every_process_start_are_the_pending_batches_full.
+
+(* ... and their keys are strictly increasing: key order is acceptance order at every start *)
+Theorem C10_records_at_every_process_start_in_key_order_full : forall max0 h,
+  Forall (fun d => ssorted (keys d) = true) (b_start_images max0 h).
+Proof. exact b_start_images_sorted. Qed.
+Print Assumptions C10_records_at_every_process_start_in_key_order_full.
+
+(* non-vacuity: batches 7, 8, 9 accepted (8 and 9 of the same size, say); restart with all three pending: the records
+   are 7, 8, 9 under keys 0, 1, 2; one handed out, 7 accepted again, the process dies inside a further submission
+   whose write survived: the recovering process finds 8, 9, 7, 8 *)
+Example ex_start_images :
+  let h := [BOp (BSubmit true (UB 7)); BOp (BSubmit true (UB 8)); BOp (BSubmit true (UB 9)); BStart 0;
+            BOp (BNext true 0); BOp (BSubmit true (UB 7)); BCrash (BSubmit true (UB 8)) 1 2] in
+  b_start_images 0 h = [[(0, 7); (1, 8); (2, 9)]; [(1, 8); (2, 9); (3, 7); (4, 8)]] /\
+  sv_start_queues 0 [] (map b_vitem h) = [[7; 8; 9]; [8; 9; 7; 8]].
 Proof. vm_compute. split; reflexivity. Qed.
